@@ -174,6 +174,17 @@ class Map(Kind):
         return getattr(self.sort(), f'{self.name}_keys')(t)
 
 
+class SetOf(Kind):
+    """a python set of elem: characteristic array elem -> Bool (iteration order: an unspecified enumeration)"""
+
+    def __init__(self, elem):
+        self.elem = elem
+        self.name = f'Set_{elem.name}'
+
+    def sort(self):
+        return z3.ArraySort(self.elem.sort(), z3.BoolSort())
+
+
 class DynKind(Kind):
     """The JSON-like dynamic value universe of config/parameter values (mutually recursive datatypes
     with cons-lists: neither solver handles Seq nested inside a recursive datatype)."""
